@@ -201,15 +201,25 @@ def rule_resize(ctx, repo):
     r = F.method(repo, "DAE", "resize_arrays", DAE)
     want = {"x": "n", "y": "m", "f": "n", "g": "m", "h": "p", "i": "q", "Tf": "n"}
     got = {}
+    e_sig = [x.arg for x in F.method(repo, "DAE", "_extend_or_slice", DAE).fn.args.args][1:]
+    fills = {}
+
+    def _bound(call):
+        """arguments of a call bound to the parameter names of _extend_or_slice (positional or keyword spelling)"""
+        b = dict(zip(e_sig, call.args))
+        b.update({k.arg: k.value for k in call.keywords if k.arg})
+        return b
     for n in walk_noscope(r.fn):
-        if isinstance(n, ast.Assign):
-            m = Q.match("self.$a = self._extend_or_slice(self.$a, self.$c)", n) or Q.match("self.$a = self._extend_or_slice(self.$a, self.$c, fill_func=$f)", n)
-            if m:
-                got[m["a"]] = m["c"]
+        if isinstance(n, ast.Assign) and isinstance(n.value, ast.Call) and dotted(n.value.func) == "self._extend_or_slice" and len(e_sig) >= 3:
+            b = _bound(n.value)
+            tgt, arr, size = dotted(n.targets[0]), b.get(e_sig[0]), b.get(e_sig[1])
+            if tgt and arr is not None and size is not None and dotted(arr) == tgt and tgt.startswith("self.") and (dotted(size) or "").startswith("self."):
+                got[tgt[5:]] = dotted(size)[5:]
+                fills[tgt[5:]] = src(b[e_sig[2]]) if e_sig[2] in b else None
     bad = {k: got.get(k) for k, v in want.items() if got.get(k) != v}
     ctx.check(not bad, "C10.resize", "DAE.resize_arrays", "each vector resized with its own counter (x,f,Tf->n; y,g->m; h->p; i->q)",
               "vector/counter pairing in resize_arrays changed: %s" % bad, r.W())
-    ok = Q.has("self.Tf = self._extend_or_slice(self.Tf, self.n, fill_func=np.ones)", r.fn)
+    ok = fills.get("Tf") == "np.ones"
     ctx.check(ok, "C10.resize", "DAE.resize_arrays/Tf", "new time-constant slots default to 1 (identity mass matrix)",
               "new Tf slots are no longer filled with ones", r.W())
     e = F.method(repo, "DAE", "_extend_or_slice", DAE)
